@@ -28,7 +28,7 @@ COMPONENTS = {"real": ["setigen.voltage.quantization (RealQuantizer, ComplexQuan
 ASSUMPTIONS = ["a 'constant' input is an array of one repeated value (zero variance by definition, whatever its computed std)",
                "|x| kept within 1e-100..1e140 so that sums of squares neither overflow nor underflow",
                "+-1 tolerated iff the reference pre-rounding value is within 1e-9 of a rounding boundary"]
-PROBES = ["object_copied_or_pickled_between_calls", "integer_parameters_as_numpy_scalars", "real_dtype_input_to_complex_quantiser", "refresh_skipped", "refresh_taken_later_call", "zero_variance_input", "custom_std_used",
+PROBES = ["more_than_256_calls_on_one_object", "object_copied_or_pickled_between_calls", "integer_parameters_as_numpy_scalars", "real_dtype_input_to_complex_quantiser", "refresh_skipped", "refresh_taken_later_call", "zero_variance_input", "custom_std_used",
           "ncalc_shorter_than_input", "clipped_values", "two_d_input", "period_nonpositive", "rejected_call"]
 
 KINDS = ["gauss", "gauss", "gauss", "const", "two", "ramp", "huge", "tiny", "len1", "2d", "pedestal"]
@@ -110,6 +110,17 @@ def generate(rng, tier):
         else:
             ops.append({"op": "fcomplex", "x": gen_input(rng), "y": gen_input(rng), "bits": rng.choice([2, 4, 8]),
                         "tmean": rng.choice([0, 1.0]), "tstd": rng.choice([13.59, 2.0]), "ncalc": rng.choice([3, 10000])})
+    if rng.random() < (0.06 if tier == "quick" else 0.12):
+        # SCALE: hundreds of calls on one object (a counter, a bounded history or a cache that only wraps or fills after
+        # many calls is invisible in a dozen); small inputs keep the burst cheap, the period is made a non-trivial one
+        q = rng.randrange(nq)
+        if rng.random() < 0.8:
+            quants[q]["period"] = rng.choice([2, 3, 5, 7, 16, 100])
+        x = gen_input(rng)
+        x["n"] = rng.choice([2, 3, 7, 16])
+        x["kind"] = rng.choice(["gauss", "gauss", "two", "ramp"])
+        ops.insert(rng.randrange(len(ops) + 1), {"op": "q", "q": q, "x": x, "custom": None, "alias": False,
+                                                 "rep": rng.choice([130, 260, 300, 520, 700])})
     return {"seams": {"entropy_salt": rng.randrange(1 << 20), "scratch": "c09"}, "quants": quants, "ops": ops}
 
 
@@ -126,6 +137,11 @@ def simplify(sc):
                     c = copy.deepcopy(sc)
                     c["ops"][j][key]["kind"] = "ramp"
                     yield c
+        if op.get("rep", 1) > 1:
+            for r in (op["rep"] // 2, op["rep"] * 3 // 4, op["rep"] - 1):
+                c = copy.deepcopy(sc)
+                c["ops"][j]["rep"] = max(r, 1)
+                yield c
         if op.get("custom") is not None:
             c = copy.deepcopy(sc)
             c["ops"][j]["custom"] = None
@@ -219,16 +235,28 @@ def execute(sc, ctx):
         if spec["period"] <= 0:
             ctx.hit("period_nonpositive")
     held = []
-    for op in sc["ops"]:
-        ctx.op(op["op"])
-        with warnings.catch_warnings():
-            warnings.simplefilter("ignore")
-            _step(qz, objs, op, ctx, held)
-            if not ctx.violations and not _held_intact(ctx, held):
+    for op0 in sc["ops"]:
+        for rep in range(op0.get("rep", 1) if op0["op"] == "q" else 1):
+            op = op0
+            if rep:
+                # the burst: the same call again and again, on fresh data each time (statistics differ between calls, so
+                # that a refresh taken or skipped on the wrong call shows)
+                op = dict(op0, x=dict(op0["x"], seed=op0["x"]["seed"] + 7919 * rep,
+                                      mu=op0["x"]["mu"] + 0.37 * (rep % 5), sd=op0["x"]["sd"] * (1 + 0.5 * (rep % 3))))
+                op.pop("y", None)
+            ctx.op(op["op"])
+            with warnings.catch_warnings():
+                warnings.simplefilter("ignore")
+                _step(qz, objs, op, ctx, held)
+                if not ctx.violations and not _held_intact(ctx, held):
+                    break
+                del held[:-6]
+            if ctx.violations and ctx.stop_on_violation:
                 break
-            del held[:-6]
         if ctx.violations and ctx.stop_on_violation:
             break
+    if any(o["calls"] > 256 for o in objs):
+        ctx.hit("more_than_256_calls_on_one_object")
     ctx.sim_time += 1e-6 * sum(o["calls"] for o in objs)
     ctx.fingerprint = [sorted({(q["cls"], q["bits"]) for q in sc["quants"]}),
                        sorted({("neg" if q["period"] < 0 else q["period"]) if q["period"] < 2 else "2+" for q in sc["quants"]},
